@@ -229,7 +229,31 @@ func (rt *RType) hostMethod(e *Engine, name string) *HostFunc {
 		})
 	case "NumMethod":
 		return mk(func(e *Engine, fr *frame, args []V) V {
-			return vInt(int64(e.prog.MethodSets.MethodSet(t).Len()))
+			return vInt(int64(len(e.exportedMethods(t))))
+		})
+	case "Method":
+		return mk(func(e *Engine, fr *frame, args []V) V {
+			ms := e.exportedMethods(t)
+			i := int(e.concInt(args[0]))
+			if i < 0 || i >= len(ms) {
+				reflectPanic("reflect: Method index out of range")
+			}
+			rp := e.prog.ImportedPackage("reflect")
+			mt := rp.Type("Method").Type().Underlying().(*types.Struct)
+			out := make([]V, mt.NumFields())
+			for k := 0; k < mt.NumFields(); k++ {
+				switch mt.Field(k).Name() {
+				case "Name":
+					out[k] = vStr(ms[i].Obj().Name())
+				case "Index":
+					out[k] = vInt(int64(i))
+				case "Type":
+					out[k] = e.reflectTypeIface(ms[i].Type())
+				default:
+					out[k] = zero(mt.Field(k).Type())
+				}
+			}
+			return V{K: KStruct, P: out}
 		})
 	case "Implements":
 		return mk(func(e *Engine, fr *frame, args []V) V {
@@ -247,6 +271,19 @@ func (rt *RType) hostMethod(e *Engine, name string) *HostFunc {
 		e.unsupported("reflect.Type.%s is not modelled", name)
 		return V{}
 	})
+}
+
+// exportedMethods lists the exported methods of t sorted by name (reflect's order).
+func (e *Engine) exportedMethods(t types.Type) []*types.Selection {
+	ms := e.prog.MethodSets.MethodSet(t)
+	var out []*types.Selection
+	for i := 0; i < ms.Len(); i++ {
+		if ms.At(i).Obj().Exported() {
+			out = append(out, ms.At(i))
+		}
+	}
+	// MethodSet is sorted by Id, which for exported names is the name
+	return out
 }
 
 func (e *Engine) rtypeArg(v V) types.Type {
@@ -661,6 +698,13 @@ func init() {
 	})
 	rv("Convert", func(e *Engine, fr *frame, r *RValue, args []V) V {
 		t := e.rtypeArg(args[0])
+		if _, toIface := t.Underlying().(*types.Interface); toIface {
+			v := r.get()
+			if _, fromIface := r.T.Underlying().(*types.Interface); !fromIface {
+				v = vIface(r.T, copyVal(v))
+			}
+			return mkRValue(&RValue{T: t, val: v, valid: true})
+		}
 		return mkRValue(&RValue{T: t, val: e.conv(t, r.T, r.get()), valid: true})
 	})
 	rv("Call", func(e *Engine, fr *frame, r *RValue, args []V) V {
